@@ -61,6 +61,20 @@ def check_has_all(cx: Cx, q: str, field: str):
                         and isinstance(d.elt, _BT) and d.elt.f == f_not(AIn(d.gens[0][0], comps)):
                     seen.add('all')
                     continue
+            from sa.terms import IfT as _IfT
+            if isinstance(v, _IfT):
+                from sa.walker import _Ctx, State
+                try:
+                    v = _BT(_Ctx(cx.walker, fn, WalkOptions()).formula(v, State()))
+                except Exception:
+                    pass
+            if isinstance(v, _BT) and not (isinstance(v.f, _FN)):
+                # `not types or all(...)` / `len(types) == 0 or all(...)`: all() over an empty template is True anyway
+                alls = [a for a in atoms_of(v.f) if isinstance(a, ATruthy) and isinstance(a.t, App) and a.t.fn == 'all']
+                if len(alls) == 1 and va is not None:
+                    empties = (f_not(ATruthy(va)), mk_cmp(App('len', (va,)), '==', Num(0)))
+                    if v.f == alls[0] or any(compare(v.f, f_or(e0, alls[0])) is None for e0 in empties):
+                        v = alls[0].t
             if isinstance(v, App) and v.fn == 'all':
                 # all(<type> in <store> for <type> in <template>)
                 g = v.args[0] if v.args else None
